@@ -113,7 +113,7 @@ func c06(c *Ctx) {
 			return // build problems: C13
 		}
 		req, _ := spec.Request([]*spec.File{u.FP.File}, nil, "format=json")
-		res := c.TB.Run("openapiv3", req, plugin.RunOpt{})
+		res := lab.RunDecoy(c.TB, "openapiv3", req, plugin.RunOpt{})
 		c.R.Eval(1)
 		if !res.OK() {
 			c.R.Violate(base, "no-document", res.Crash+res.Error, map[string]any{"proto": u.FP.File.Proto()})
@@ -315,7 +315,7 @@ func c06params(c *Ctx, add func(wireSample), docs map[string]any) {
 		return
 	}
 	reqJSON, _ := spec.Request([]*spec.File{f}, nil, "format=json")
-	res := c.TB.Run("openapiv3", reqJSON, plugin.RunOpt{})
+	res := lab.RunDecoy(c.TB, "openapiv3", reqJSON, plugin.RunOpt{})
 	if !res.OK() {
 		return
 	}
